@@ -45,8 +45,10 @@ def bound_names(scope):
     out = set(scope["params"])
     for s in walk_stmts(scope["body"]):
         t = s["t"]
-        if t in ("assign", "aug", "for", "with", "except", "walrus"):
+        if t in ("assign", "aug", "for", "with", "except", "walrus", "src", "copy"):
             out.add(s["n"])
+        elif t == "call2":
+            out.add(s["to"])
         elif t in ("def", "class"):
             out.add(s["s"]["name"])
         elif t == "import":
@@ -230,6 +232,19 @@ def render(tree, wprefix="w", wstart=1):
             if t == "assign":
                 ln = emit(ind, "%s = %d" % (s["n"], s.get("v", 1)))
                 occs.append(Occ(ln, s["n"], "def", scope, form="assign"))
+            elif t == "src":
+                ln = emit(ind, "%s = srcobj.get()" % s["n"])
+                occs.append(Occ(ln, s["n"], "def", scope, form="src"))
+                occs.append(Occ(ln, "srcobj", "use", scope, form="builtin"))
+            elif t == "copy":
+                ln = emit(ind, "%s = %s" % (s["n"], s["from"]))
+                occs.append(Occ(ln, s["n"], "def", scope, form="assign"))
+                occs.append(Occ(ln, s["from"], "use", scope, form="plain"))
+            elif t == "call2":
+                ln = emit(ind, "%s = %s(%s)" % (s["to"], s["fn"], s["n"]))
+                occs.append(Occ(ln, s["to"], "def", scope, form="assign"))
+                occs.append(Occ(ln, s["fn"], "use", scope, form="call"))
+                occs.append(Occ(ln, s["n"], "use", scope, form="arg"))
             elif t == "aug":
                 ln = emit(ind, "%s += 1" % s["n"])
                 occs.append(Occ(ln, s["n"], "usedef", scope, form="aug"))
@@ -250,6 +265,8 @@ def render(tree, wprefix="w", wstart=1):
                     ln = emit(ind, "%s = %s(2)" % (w, n))
                 elif f == "arg":
                     ln = emit(ind, "%s = str(%s)" % (w, n))
+                elif f == "sink":
+                    ln = emit(ind, "sink(%s)" % n)
                 elif f == "setattr":
                     ln = emit(ind, "%s.b = 3" % n)
                 elif f == "index":
@@ -260,8 +277,10 @@ def render(tree, wprefix="w", wstart=1):
                 else:
                     raise ValueError(f)
                 occs.append(Occ(ln, n, "use", scope, join=("target", w) if in_class else None, form=f))
-                if f not in ("setattr", "cond"):
+                if f not in ("setattr", "cond", "sink"):
                     occs.append(Occ(ln, w, "def", scope, form="w"))
+                if f == "sink":
+                    occs.append(Occ(ln, "sink", "use", scope, form="builtin"))
                 if f == "arg":
                     occs.append(Occ(ln, "str", "use", scope, form="builtin"))
             elif t == "ret":
@@ -274,12 +293,14 @@ def render(tree, wprefix="w", wstart=1):
             elif t == "with":
                 ln = emit(ind, "with open(1) as %s:" % s["n"])
                 occs.append(Occ(ln, s["n"], "def", scope, form="with"))
+                occs.append(Occ(ln, "open", "use", scope, form="builtin"))
                 body(scope, s["body"], ind + 1)
             elif t == "except":
                 emit(ind, "try:")
                 emit(ind + 1, "pass")
                 ln = emit(ind, "except ValueError as %s:" % s["n"])
                 occs.append(Occ(ln, s["n"], "def", scope, form="except"))
+                occs.append(Occ(ln, "ValueError", "use", scope, form="builtin"))
                 body(scope, s["body"], ind + 1)
             elif t == "if":
                 emit(ind, "if 1:")
@@ -381,6 +402,9 @@ class PyOracle:
         self.scopes = [self.module]
         self.occs = []          # (line, name, role, PScope, extra)
         self.unsupported = []   # constructs this oracle does not model (lambda, comprehension, ...)
+        self.line_ctx = {}      # line of a statement -> (depth of compound-statement nesting inside its scope,
+        #                                                  inside an except-clause body?)
+        self._ctx = (0, False)
         self._visit_body(self.tree.body, self.module)
 
     # -- matching symtable children to ast nodes -------------------------------------------------
@@ -390,9 +414,20 @@ class PyOracle:
                 return c
         raise RuntimeError("no symtable child %s@%d in %s" % (name, line, ps.table.get_name()))
 
-    def _visit_body(self, stmts, ps):
+    def _visit_body(self, stmts, ps, nest=None):
+        """nest: None = same context; 'block' = one compound statement deeper; 'except' = an except-clause body;
+        'scope' = body of a new scope"""
+        saved = self._ctx
+        if nest == "block":
+            self._ctx = (saved[0] + 1, saved[1])
+        elif nest == "except":
+            self._ctx = (saved[0] + 1, True)
+        elif nest == "scope":
+            self._ctx = (0, False)
         for st in stmts:
+            self.line_ctx.setdefault(st.lineno, self._ctx)
             self._visit_stmt(st, ps)
+        self._ctx = saved
 
     def _names_in_expr(self, e, ps):
         if e is None:
@@ -420,7 +455,7 @@ class PyOracle:
             self.scopes.append(child)
             for arg in a.posonlyargs + a.args + a.kwonlyargs + [x for x in (a.vararg, a.kwarg) if x]:
                 self.occs.append((arg.lineno, arg.arg, "param", child, None))
-            self._visit_body(st.body, child)
+            self._visit_body(st.body, child, "scope")
         elif isinstance(st, ast.ClassDef):
             for d in st.decorator_list + st.bases + [k.value for k in st.keywords]:
                 self._names_in_expr(d, ps)
@@ -428,7 +463,7 @@ class PyOracle:
             child = PScope("class", st.name, st.lineno, ps, self._child_table(ps, st.name, st.lineno), st)
             ps.children.append(child)
             self.scopes.append(child)
-            self._visit_body(st.body, child)
+            self._visit_body(st.body, child, "scope")
         elif isinstance(st, (ast.Global, ast.Nonlocal)):
             for n in st.names:
                 self.occs.append((st.lineno, n, "decl", ps, "global" if isinstance(st, ast.Global) else "nonlocal"))
@@ -445,27 +480,27 @@ class PyOracle:
                                       ("from", st.module, al.name, st.level)))
         elif isinstance(st, (ast.If, ast.While)):
             self._names_in_expr(st.test, ps)
-            self._visit_body(st.body, ps)
-            self._visit_body(st.orelse, ps)
+            self._visit_body(st.body, ps, "block")
+            self._visit_body(st.orelse, ps, "block")
         elif isinstance(st, (ast.For, ast.AsyncFor)):
             self._names_in_expr(st.target, ps)
             self._names_in_expr(st.iter, ps)
-            self._visit_body(st.body, ps)
-            self._visit_body(st.orelse, ps)
+            self._visit_body(st.body, ps, "block")
+            self._visit_body(st.orelse, ps, "block")
         elif isinstance(st, (ast.With, ast.AsyncWith)):
             for it in st.items:
                 self._names_in_expr(it.context_expr, ps)
                 self._names_in_expr(it.optional_vars, ps)
-            self._visit_body(st.body, ps)
+            self._visit_body(st.body, ps, "block")
         elif isinstance(st, ast.Try):
-            self._visit_body(st.body, ps)
+            self._visit_body(st.body, ps, "block")
             for h in st.handlers:
                 self._names_in_expr(h.type, ps)
                 if h.name:
                     self.occs.append((h.lineno, h.name, "def", ps, "except"))
-                self._visit_body(h.body, ps)
-            self._visit_body(st.orelse, ps)
-            self._visit_body(st.finalbody, ps)
+                self._visit_body(h.body, ps, "except")
+            self._visit_body(st.orelse, ps, "block")
+            self._visit_body(st.finalbody, ps, "block")
         elif isinstance(st, ast.AugAssign):
             if isinstance(st.target, ast.Name):
                 self.occs.append((st.target.lineno, st.target.id, "usedef", ps, "aug"))
@@ -527,16 +562,21 @@ class PyOracle:
         """'module' if the module body binds the name; 'via-global' if only a function does through
         `global name`; None otherwise (builtin / undefined)."""
         forms = self.binding_forms(self.module, name)
-        if forms - {"aug"}:
-            return "module" if any(ps.kind == "module" for (ln, n, role, ps, extra) in self.occs
-                                   if n == name and role in ("def",)) else "via-global"
+        if forms & self.HOISTABLE:
+            for (ln, n, role, ps, extra) in self.occs:
+                if n == name and role == "def" and ps.kind == "module" and \
+                        not (self.line_ctx.get(ln, (0, False))[1] and not isinstance(extra, tuple)) and extra != "except":
+                    return "module"
+            return "via-global"
         if forms:
-            return "aug-only"
+            return "unhoisted"
         return None
 
     def binding_forms(self, owner_ps, name):
-        """set of binding forms of the variable (owner scope, name): assign / aug / def / class / param /
-        import / except / for-or-other"""
+        """set of binding forms of the variable (owner scope, name):
+             param / assign / def / class / import            -> lian has a declaration row the whole scope sees
+             aug / except-as / except-body / import-in-block / def-in-block / class-in-block
+                                                              -> (see the known findings) not hoisted"""
         out = set()
         for (ln, n, role, ps, extra) in self.occs:
             if n != name or role not in ("def", "param", "usedef"):
@@ -544,17 +584,26 @@ class PyOracle:
             o, how = (ps, "param") if role == "param" else self.owner(ps, n)
             if o is not owner_ps:
                 continue
+            depth, in_exc = self.line_ctx.get(ln, (0, False))
             if role == "param":
                 out.add("param")
             elif role == "usedef":
                 out.add("aug")
+            elif extra == "except":
+                out.add("except-as")
+            elif in_exc and ps.kind != "module" and not isinstance(extra, tuple) and extra not in ("def", "class"):
+                out.add("except-body")
+            elif in_exc and ps.kind == "module" and not isinstance(extra, tuple) and extra not in ("def", "class"):
+                out.add("except-body")
             elif isinstance(extra, tuple):
-                out.add("import")
-            elif extra in ("def", "class", "except"):
-                out.add(extra)
+                out.add("import-in-block" if (depth > 0 and ps.kind != "module") else "import")
+            elif extra in ("def", "class"):
+                out.add(extra + ("-in-block" if (depth > 0 and ps.kind != "module") else ""))
             else:
                 out.add("assign")
         return out
+
+    HOISTABLE = frozenset(["param", "assign", "def", "class", "import"])
 
     def scope_by_ident(self, kind, line):
         for ps in self.scopes:
@@ -609,6 +658,12 @@ def use_kind(ps):
 EXPECTED_KIND = {"module": "module", "local": "local", "param": "param", "class-local": "class-local",
                  "free": "enclosing-function", "nonlocal": "enclosing-function-nonlocal", "implicit": "module",
                  "global-stmt": "module-via-global-stmt", "global-inherited": "module-via-inherited-global-stmt"}
+
+
+UNHOISTED_KIND = {frozenset(["aug"]): "augassign-only-binding",
+                  frozenset(["except-as"]): "except-as-only-binding",
+                  frozenset(["except-body"]): "bound-only-inside-except-bodies",
+                  frozenset(["import-in-block"]): "imported-only-inside-blocks"}
 
 
 def decl_name(d):
@@ -683,7 +738,7 @@ def compare_unit(unit, oracle, bind, lang="python", imports=None, col=None):
             forms = oracle.binding_forms(owner, name)
             if owner.kind == "module":
                 mb = oracle.module_binding(name)
-                if mb in ("module", "aug-only"):
+                if mb in ("module", "unhoisted"):
                     ekind = EXPECTED_KIND[how]
                     ok = (d["kind"] == "decl" and d["unit"] == unit and d["owner"][0] == "unit"
                           and decl_name(d) == name)
@@ -698,8 +753,8 @@ def compare_unit(unit, oracle, bind, lang="python", imports=None, col=None):
                 ok = (d["kind"] == "decl" and d["unit"] == unit and (d["owner"][0], d["owner"][1]) ==
                       (owner.kind, owner.line) and decl_name(d) == name)
                 edesc = "%s of %s %s (line %d)" % (how, owner.kind, owner.name, owner.line)
-            if forms == {"aug"}:
-                ekind = "augassign-only-binding"
+            if forms and not (forms & oracle.HOISTABLE):
+                ekind = UNHOISTED_KIND.get(frozenset(forms), "bound-only-by-unhoisted-forms(mixed)")
             if not ok:
                 ck = chosen_kind(d, unit, ps)
                 if d["kind"] == "decl" and d["unit"] == unit:
